@@ -4,25 +4,27 @@ import AscentVerif.Proofs.C15CoreReach
 import AscentVerif.Proofs.C15CoreStrat
 import AscentVerif.Proofs.C15CoreAccept
 /-!
-# C15: the checks on desugared rules (HIR: undeclared / arity / rebinding; MIR: stratification; code generation)
+# C15: the checks on desugared rules (HIR: undeclared / arity / rebinding / aggregated variables; MIR: stratification)
 -/
 namespace AscentVerif.Check
 open AscentVerif AscentVerif.Engine
 
 /-- what a successful HIR pass over a rule body establishes: every relation occurrence resolves with the
-right arity, and the patterns of every item are fresh at their position -/
+right arity, every aggregated variable is an argument of the aggregated relation, and the patterns of every
+item are fresh at their position -/
 theorem hirRules_ok_iff (ds : List Decl) (rules : List CoreRule) :
     hirRules ds rules = .ok () ↔
       (∀ r ∈ rules, ∀ o ∈ r.occurrences, ∃ d, findDecl ds o.1 = some d ∧ d.arity = o.2) ∧
+      ¬ IllFormedAggBound rules ∧
       (∀ r ∈ rules, ∀ pre ev post, r.body = pre ++ ev :: post →
         ev.binderVars.Nodup ∧ ∀ v ∈ ev.binderVars, v ∉ pre.flatMap Ev.grounds ++ ev.argIdents) := by
-  rw [hirRules_ok_iff']
+  rw [hirRules_ok_iff', ← aggBound_iff]
   simp only [hirRule_ok_iff]
   constructor
   · intro h
-    exact ⟨fun r hr => (h r hr).1, fun r hr => (h r hr).2⟩
-  · rintro ⟨h1, h2⟩ r hr
-    exact ⟨h1 r hr, h2 r hr⟩
+    exact ⟨fun r hr => (h r hr).1, fun r hr => (h r hr).2.1, fun r hr => (h r hr).2.2⟩
+  · rintro ⟨h1, h2, h3⟩ r hr
+    exact ⟨h1 r hr, h2 r hr, h3 r hr⟩
 
 theorem undeclared_rejected (s : Summary) (rules : List CoreRule) (hr : Reaches s)
     (hd : desugar s.macros s.rules = .ok rules) (h : IllFormedUndeclared s rules) : Rejected s := by
@@ -57,10 +59,21 @@ theorem rebind_rejected (s : Summary) (rules : List CoreRule) (hr : Reaches s)
   rw [hd] at hd'
   cases hd'
   obtain ⟨r, hr', pre, ev, post, heq, hbad⟩ := h
-  obtain ⟨h1, h2⟩ := ((hirRules_ok_iff s.decls rules).1 hh).2 r hr' pre ev post heq
+  obtain ⟨h1, h2⟩ := ((hirRules_ok_iff s.decls rules).1 hh).2.2 r hr' pre ev post heq
   rcases hbad with hbad | ⟨v, hv, hm⟩
   · exact hbad h1
   · exact h2 v hv hm
+
+/-- an aggregation over a variable that is no argument of the aggregated relation is rejected, in whatever
+rule and at whatever position it stands -/
+theorem aggBound_rejected (s : Summary) (rules : List CoreRule) (hr : Reaches s)
+    (hd : desugar s.macros s.rules = .ok rules) (h : IllFormedAggBound rules) : Rejected s := by
+  apply rejected_of_not_compile hr
+  intro hc
+  obtain ⟨rules', hd', hh, _⟩ := (compile_ok_iff s).1 hc
+  rw [hd] at hd'
+  cases hd'
+  exact ((hirRules_ok_iff s.decls rules).1 hh).2.1 h
 
 /-- the stratification test of the model is exactly the declarative condition -/
 theorem stratError_iff (s : Summary) (rules : List CoreRule) :
@@ -71,7 +84,7 @@ theorem stratification_rejected (s : Summary) (rules : List CoreRule) (hr : Reac
     (hd : desugar s.macros s.rules = .ok rules) (h : IllFormedStrat s rules) : Rejected s := by
   apply rejected_of_not_compile hr
   intro hc
-  obtain ⟨rules', hd', _, _, _, hs, _⟩ := (compile_ok_iff s).1 hc
+  obtain ⟨rules', hd', _, _, _, _, hs⟩ := (compile_ok_iff s).1 hc
   rw [hd] at hd'
   cases hd'
   rw [(stratError_iff s rules).2 h] at hs
@@ -91,13 +104,13 @@ theorem wellFormed_accepted (s : Summary) (rules : List CoreRule) (hr : Reaches 
     (hd : desugar s.macros s.rules = .ok rules) (h : WellFormedCore s rules) : check s = .ok () := by
   rw [check_of_reaches hr, compile_ok_iff]
   refine ⟨rules, hd, ?_, ?_, ?_, ?_, ?_⟩
-  · exact (hirRules_ok_iff s.decls rules).2 ⟨h.declared, h.fresh⟩
+  · exact (hirRules_ok_iff s.decls rules).2 ⟨h.declared, h.aggBound, h.fresh⟩
   · exact configCheck_of h.attrsKnown h.attrsPlain h.parOnly h.progDs
   · exact declsCheck_of s.decls h.declDs
+  · exact (sigCheck_ok_iff s.sig).2 h.sigOk
   · cases hs : stratError (skeleton s.decls rules) with
     | false => rfl
     | true => exact absurd ((stratError_iff s rules).1 hs) h.stratified
-  · exact codegenCheck_of h.aggBound h.sigOk
 
 /-- conversely, an accepted program is well formed in the declarative sense, except that of several
 attributes with the same name only the first is inspected by the real code -/
@@ -105,15 +118,16 @@ theorem accepted_wellFormed (s : Summary) (hr : Reaches s) (h : check s = .ok ()
     ∃ rules, desugar s.macros s.rules = .ok rules ∧
       (∀ r ∈ rules, ∀ o ∈ r.occurrences, ∃ d, findDecl s.decls o.1 = some d ∧ d.arity = o.2) ∧
       ¬ IllFormedRebind rules ∧ ¬ IllFormedStrat s rules ∧ ¬ IllFormedDsLattice s ∧ ¬ IllFormedTwoDs s ∧
-      ¬ IllFormedUnknownAttr s ∧ ¬ IllFormedParOnlyAttr s := by
+      ¬ IllFormedUnknownAttr s ∧ ¬ IllFormedParOnlyAttr s ∧
+      ¬ IllFormedAggBound rules ∧ ¬ IllFormedSig s ∧ ¬ IllFormedEmptyDisj s := by
   have hnr : ¬ Rejected s := by
     rintro ⟨e, he⟩
     rw [h] at he
     cases he
   rw [check_of_reaches hr] at h
-  obtain ⟨rules, hd, hh, _, _, hs, _⟩ := (compile_ok_iff s).1 h
-  obtain ⟨h1, h2⟩ := (hirRules_ok_iff s.decls rules).1 hh
-  refine ⟨rules, hd, h1, ?_, ?_, ?_, ?_, ?_, ?_⟩
+  obtain ⟨rules, hd, hh, _, _, hsg, hs⟩ := (compile_ok_iff s).1 h
+  obtain ⟨h1, h3, h2⟩ := (hirRules_ok_iff s.decls rules).1 hh
+  refine ⟨rules, hd, h1, ?_, ?_, ?_, ?_, ?_, ?_, h3, (sigCheck_ok_iff s.sig).1 hsg, not_emptyDisj_of_whole hr.1⟩
   · rintro ⟨r, hr', pre, ev, post, heq, hbad⟩
     obtain ⟨k1, k2⟩ := h2 r hr' pre ev post heq
     rcases hbad with hbad | ⟨v, hv, hm⟩
